@@ -65,6 +65,14 @@ def build_pool(rng, tier):
                 vals += [rng.choice(vals)] + [0] * rng.randint(1, 2)
                 rng.shuffle(vals)
                 pool.append({"port": "partition", "args": part_unit(a, 2 if a == "cbldm" else rng.choice([2, 3]), vals, rng, fmt=fmt, out="pst")["params"]})
+        # ... and UNHASHABLE item objects ([name, value] records with a value function): the algorithms that count items with a Counter
+        # refuse them (TypeError) - identically in a history and alone - and a refusal must leave the caller's list alone as well
+        for a in ["greedy", "kk", "ckk", "snp", "rnp", "cg", "multifit", "ffd", "bfd", "bc", "cover_34"]:
+            vals = [rng.randint(1, 30) for _ in range(rng.randint(5, 7))]
+            if a in ("ffd", "bfd", "bc", "cover_34"):
+                pool.append({"port": "pack", "args": pack_unit(a, max(vals) + rng.randint(0, 9), vals, rng, fmt="records_valueof", out="pst")["params"]})
+            else:
+                pool.append({"port": "partition", "args": part_unit(a, rng.choice([3, 3, 4]), vals, rng, fmt="records_valueof", out=rng.choice(["pst", "sums"]))["params"]})
         # the rest of the public surface inside histories: objective objects (among them the weighted one, whose value is a float division),
         # lower bounds, and complete KK with ONE bin (its bound divides by numbins - 1 = 0 and relies on numpy's default error mode)
         for _ in range(3):
@@ -197,6 +205,9 @@ def units(rng, tier):
         idx[rng.randrange(n)] = idx[0]
         fails = [i for i, c in enumerate(POOL) if c.get("fails")]
         idx[rng.randrange(1, n)] = rng.choice(fails)
+        recs = [i for i, c in enumerate(POOL) if c["args"].get("fmt") == "records_valueof"]
+        for _r in range(2):
+            idx.insert(rng.randrange(1, len(idx)), rng.choice(recs))      # two calls on unhashable record items in every history
         calls = [{"port": POOL[i]["port"], "args": POOL[i]["args"]} for i in idx]
         us.append({"kind": "history", "params": {"calls": calls}, "cmp": None, "family": "random-history"})
     # histories of bin-completion searches, each made twice in a row (see build_pool)
